@@ -550,7 +550,7 @@ def reconf_verdicts(ctx, cases, results, idx, tag, shard=None):
         body = "From TP Require Import Model.Prelude Extracted Model.Toxics Model.Timed Model.Reconf Model.ReconfRun Run.LinkRun Run.ReconfCases.\n"
         for j, (i, ops) in enumerate(part):
             body += "Eval vm_compute in (%d, rverdict (%s)).\n" % (j, coq_rcase(cases[i], results[i], ops))
-        rc, out = C.coq_eval(ctx, "%s_r%d" % (tag, s // shard), body, timeout=1200)
+        rc, out = C.coq_eval(ctx, "%s_r%d" % (tag, s // shard), body, timeout=(300 if ctx.tier == "quick" else 1200))
         if rc == 124:
             ctx.notes.append("a shard of %d reconfiguration scripts exceeded the evaluation time limit (search over scheduler choices) and is not counted" % len(part))
             return {}
@@ -625,7 +625,7 @@ def multi_verdicts(ctx, cases, results, idx, tag):
         body = "From TP Require Import Model.Prelude Extracted Model.Toxics Model.Timed Model.Reconf Model.ReconfRun Model.MultiRun Run.LinkRun Run.ReconfCases.\n"
         for j, (i, ops) in enumerate(part):
             body += "Eval vm_compute in (%d, mverdict (%s)).\n" % (j, coq_mcase(cases[i], results[i], ops))
-        rc, out = C.coq_eval(ctx, "%s_m%d" % (tag, s // shard), body, timeout=1200)
+        rc, out = C.coq_eval(ctx, "%s_m%d" % (tag, s // shard), body, timeout=(300 if ctx.tier == "quick" else 1200))
         if rc != 0:
             k = out.find("Error")
             raise C.BuildError("model evaluation failed:\n" + (out[max(0, k - 300):k + 800] if k >= 0 else out[-1500:]))
